@@ -20,7 +20,15 @@ var components = map[string][]string{
 // inc is an increment that was made at some instant in [t0, t1] (the clock may tick while the call runs)
 type inc struct {
 	t0, t1 time.Duration
-	v      int64
+	v      int64 // the amount, or its lower bound when vHi > v (an Append whose source was not read first)
+	vHi    int64
+}
+
+func (e inc) hi() int64 {
+	if e.vHi > e.v {
+		return e.vHi
+	}
+	return e.v
 }
 
 // window sums of a reference list for a read made at some instant in [n0, n1]: events certainly younger
@@ -31,7 +39,7 @@ func bounds(evs []inc, n0, n1 time.Duration, n int, r time.Duration) (lo, hi int
 			lo += e.v
 		}
 		if n0-e.t1 <= time.Duration(n)*r {
-			hi += e.v
+			hi += e.hi()
 		}
 	}
 	return
@@ -183,19 +191,19 @@ func c17prop(r *simkit.Run) {
 				if rapid.Bool().Draw(rt, "a?") {
 					begin()
 					rc.IncA(v)
-					evsA = append(evsA, inc{t0, now(), int64(v)})
+					evsA = append(evsA, inc{t0: t0, t1: now(), v: int64(v)})
 					note("IncA(%d)", v)
 				} else {
 					begin()
 					rc.IncB(v)
-					evsB = append(evsB, inc{t0, now(), int64(v)})
+					evsB = append(evsB, inc{t0: t0, t1: now(), v: int64(v)})
 					note("IncB(%d)", v)
 				}
 			} else {
 				in := pick("which")
 				begin()
 				in.c.Inc(v)
-				in.evs = append(in.evs, inc{t0, now(), int64(v)})
+				in.evs = append(in.evs, inc{t0: t0, t1: now(), v: int64(v)})
 				note("#%d.Inc(%d)", in.id, v)
 			}
 		case "read":
@@ -277,17 +285,29 @@ func c17prop(r *simkit.Run) {
 			if !ratioMode && len(insts) > 1 {
 				a, b := pick("into"), pick("from")
 				if a != b {
-					clock.SimTick(nil) // Append reads the other counter itself: no time passes between that read and ours
+					clock.SimTick(nil)
 					begin()
-					got := b.c.Count()
-					checkCount(fmt.Sprintf("#%d.Count()", b.id), got, b.evs)
-					if err := a.c.Append(b.c); err != nil {
-						r.Fail("append-refused", "#%d.Append(#%d): %v", a.id, b.id, err)
+					if rapid.Bool().Draw(rt, "read-source-first") {
+						// Append reads the other counter itself: no time passes between that read and ours
+						got := b.c.Count()
+						checkCount(fmt.Sprintf("#%d.Count()", b.id), got, b.evs)
+						if err := a.c.Append(b.c); err != nil {
+							r.Fail("append-refused", "#%d.Append(#%d): %v", a.id, b.id, err)
+						}
+						a.evs = append(a.evs, inc{t0: t0, t1: now(), v: got})
+						note("#%d.Append(#%d) adds %d", a.id, b.id, got)
+					} else {
+						// the source has not been looked at since it last changed (it may hold buckets that are due to age
+						// out): what is added is what the source would report now, known only by its bounds
+						lo, hi := bounds(b.evs, t0, t0, n, res)
+						if err := a.c.Append(b.c); err != nil {
+							r.Fail("append-refused", "#%d.Append(#%d): %v", a.id, b.id, err)
+						}
+						a.evs = append(a.evs, inc{t0: t0, t1: now(), v: lo, vHi: hi})
+						note("#%d.Append(#%d) adds between %d and %d", a.id, b.id, lo, hi)
 					}
-					a.evs = append(a.evs, inc{t0, now(), got})
 					clock.SimTick(tick)
 					appends++
-					note("#%d.Append(#%d) adds %d", a.id, b.id, got)
 				}
 			}
 		}
